@@ -73,6 +73,10 @@ func (o *objectGoMapSimple) setForeignStr(name unistring.String, val, receiver V
 	return o._setForeignStr(name, trueValIfPresent(o._hasStr(name.String())), val, receiver, throw)
 }
 
+func (o *objectGoMapSimple) setForeignIdx(idx valueInt, val, receiver Value, throw bool) (bool, bool) {
+	return o.setForeignStr(idx.string(), val, receiver, throw)
+}
+
 func (o *objectGoMapSimple) _hasStr(name string) bool {
 	_, exists := o.data[name]
 	return exists
